@@ -88,6 +88,8 @@ type ChanObj struct {
 	sendq2 []*chanReg
 	recvq2 []*chanReg
 	env    bool // environment channel (ticker/time.After): fires while the tick budget lasts
+	envEp  int  // per-channel budget granted by EnvTicksEach: the grant it belongs to ...
+	envOwn int  // ... and what is left of it
 }
 
 func under(t types.Type) types.Type { return t.Underlying() }
